@@ -2,20 +2,30 @@
    (not from the code), over the script view of the sources. *)
 From Kit Require Export Lib.Reader.
 
-(* LimitReadCloser(src, n), consumed to its end and then closed.
-   [out] = bytes delivered, [e] = the error that ended the stream, [closes_after] = number of
-   times the source was closed once Close has returned. *)
-Definition limit_spec (n : Z) (s : list rd) (out : list N) (e : err) (closes_after : nat) : Prop :=
+(* LimitReadCloser(src, n), consumed to its end - by whatever path: Read loop, io.ReadAll,
+   io.Copy, ... - and then closed (Close called one or more times).
+   [out] = bytes delivered, [e] = the error that ended the stream, [closes_before] = number of
+   times the source had been closed when the stream ended (before the caller's Close),
+   [closes_after] = number of times it was closed once the last Close has returned.
+   "fails with ErrStreamTooLarge ..., having closed the source": an over-long source has been closed
+   by the limiter itself when the error is delivered (a negative limit is refused before the
+   source is touched; Close then closes it). *)
+Definition limit_spec (n : Z) (s : list rd) (out : list N) (e : err)
+           (closes_before closes_after : nat) : Prop :=
   closes_after = 1 /\
   let d := data_of s in
-  if (Z.of_nat (length d) >? n)%Z then out = firstn (Z.to_nat n) d /\ e = ETooLarge
+  if (Z.of_nat (length d) >? n)%Z
+  then out = firstn (Z.to_nat n) d /\ e = ETooLarge /\ ((0 <= n)%Z -> closes_before = 1)
   else if ends_eof s then out = d /\ e = EEOF
   else out = d /\ e = EFail.
 
-Definition limit_oracle (n : Z) (s : list rd) (out : list N) (e : err) (closes_after : nat) : bool :=
+Definition limit_oracle (n : Z) (s : list rd) (out : list N) (e : err)
+           (closes_before closes_after : nat) : bool :=
   Nat.eqb closes_after 1 &&
   let d := data_of s in
-  if (Z.of_nat (length d) >? n)%Z then eqb_listN out (firstn (Z.to_nat n) d) && err_eqb e ETooLarge
+  if (Z.of_nat (length d) >? n)%Z
+  then eqb_listN out (firstn (Z.to_nat n) d) && err_eqb e ETooLarge &&
+       ((n <? 0)%Z || Nat.eqb closes_before 1)
   else if ends_eof s then eqb_listN out d && err_eqb e EEOF
   else eqb_listN out d && err_eqb e EFail.
 
